@@ -247,10 +247,10 @@ def run(ctx):
             ci += 1
             if not ctx.mine(ci) or (not thorough and ci % 2):
                 continue
-            bins = decimal_bins(s, h, 400 if thorough else 200)
+            bins = decimal_bins(s, h, 4800 if thorough else 200)
             drive_grid(ctx, bins, rng, "odd:%s:%s" % (s, h))
     # 2. random decimal grids (0-3 digits)
-    nrand = 4000 if thorough else 120
+    nrand = 48000 if thorough else 120
     for j in range(nrand):
         ci += 1
         if not ctx.mine(ci):
@@ -280,12 +280,12 @@ def run(ctx):
                 gen_cases.append((float(s_), float(Decimal(s_) + (n_ - 1) * Decimal(h_)), float(h_)))
     gen_cases += [(4.95, 8.95, 0.1), (5.95, 8.95, 0.1), (2.5, 8.95, 0.05), (3.95, 8.95, 0.1), (-180.0, 180.0, 1.0),
                   (-90, 90.0, 0.5), (-180.0, 180.0, 0.1), (0.0, 10.0, 0.01), (4.0, 9.0, 0.5)]
-    for j in range(600 if thorough else 60):
+    for j in range(7200 if thorough else 60):
         r = ctx.rng("c02gen", j)
         digits = int(r.integers(0, 4))
         s = round(float(r.uniform(-400, 400)), digits)
         h = float(STEPS[int(r.integers(0, len(STEPS)))])
-        n = int(r.integers(1, 3000 if thorough else 400))
+        n = int(r.integers(1, 36000 if thorough else 400))
         from decimal import Decimal
         gen_cases.append((s, float(Decimal(repr(s)) + (n - 1) * Decimal(repr(h))), h))
     import csep.core.regions as regions
@@ -325,7 +325,7 @@ def run(ctx):
         drive_grid(ctx, reg.xs, rng, "global.xs")
         drive_grid(ctx, reg.ys, rng, "global.ys")
     # 6. library call sites
-    for j in range(400 if thorough else 40):
+    for j in range(4800 if thorough else 40):
         ci += 1
         if not ctx.mine(ci):
             continue
